@@ -10,7 +10,7 @@ trap 'rm -rf "$S"' EXIT
 rsync -a --exclude .git /repo/ "$S/repo/"
 if ! (cd "$S/repo" && patch -p1 -s --no-backup-if-mismatch < "$D"); then echo "NOAPPLY $D"; exit 3; fi
 if ! (cd "$S/repo" && go build ./... 2>"$S/build.err"); then echo "NOBUILD $D"; head -5 "$S/build.err"; exit 4; fi
-if [ -n "$TESTS" ]; then "$V/scripts/baseline_off.sh" "$S/repo" | tail -3; fi
+if [ -n "$TESTS" ]; then timeout 240 "$V/scripts/baseline_off.sh" "$S/repo" | tail -3; [ ${PIPESTATUS[0]} -eq 124 ] && echo "baseline: TIMEOUT (tests hang)"; fi
 rc=0
 for id in "$@"; do
   out=$("$V/bin/dverif" check "$id" --repo "$S/repo" --out "$S/ev" -q ${TIER:+--tier $TIER} 2>&1)
